@@ -28,7 +28,7 @@ class C01(Prop):
         R = Rng(seed, "C01")
         pairs = gen.all_pairs()
         used = set()
-        cfg = {"records_max": 12 if tier == "quick" else 40, "len_max": 16384, "isn_wrap": False}
+        cfg = {"records_max": 12 if tier == "quick" else 40, "len_max": 16384, "isn_wrap": False, "shaped_pct": 20}
         nconn = 1 if idx < len(pairs) else R.weighted([(1, 60), (2, 25), (3, 15)])
         conns = []
         for j in range(nconn):
